@@ -370,3 +370,12 @@ def run(ctx, chk):
     rules_c07.begin(sub, crate)
     rules_c07.close(sub, crate, "commit_transaction")
     chk.floor("receipt-chain obligations (shared with C07)", sub.count, 3)
+    # the reservation released is the caller's own: no step of commit/cancel empties the whole map while others are open
+    subc = Sub(chk, "C08-c", lambda r: r == "C07-a/clear-only-when-idle")
+    rules_c07.clear_only_when_idle(subc, crate)
+    chk.floor("own-reservation obligations (shared with C07-a)", subc.count, 2)
+    # the reference token travels in a BER-TLV container: its length forms (shared with C16-b)
+    import rules_c16
+    sub16 = Sub(chk, "C08-c", lambda r: r.startswith("C16-b/"), instance_filter=lambda i: str(i).startswith("Tlv"))
+    rules_c16.run(ctx, sub16)
+    chk.floor("TLV length-form obligations (shared with C16-b)", sub16.count, 4)
